@@ -310,3 +310,8 @@ package http2
 //@   ensures [C19:read-limit] err == nil && fr.ReadMetaHeaders == nil ==> hdrOf(f).Length <= fr.maxReadSize
 //@   ensures [C19:order-enforced] err == nil && fr.ReadMetaHeaders == nil && !fr.AllowIllegalReads && old(fr.lastHeaderStream) != 0 ==> hdrOf(f).Type == 9 && hdrOf(f).StreamID == old(fr.lastHeaderStream)
 //@   ensures [C19:no-stray-continuation] err == nil && fr.ReadMetaHeaders == nil && !fr.AllowIllegalReads && old(fr.lastHeaderStream) == 0 ==> hdrOf(f).Type != 9
+
+//@ func FrameHeader.Header :: h -> r
+//@   props C19
+//@   assigns nothing
+//@   ensures r == h
